@@ -129,6 +129,9 @@ inductive Op where
   | handshake (lr : LoadRes)
   | setTicket (a : TArg)
   | setPsk (a : PArg)
+  /-- a documented edit of a ClientHello field between builds (SetClientRandom, SetSNI, an ALPN /
+  extension / session-id change): it touches no field of the session protocol. -/
+  | edit
   deriving DecidableEq, Repr
 
 def TArg.ext : TArg → TExt
@@ -183,6 +186,7 @@ structure St where
   sharesFilled : Bool           -- the spec's key shares carry generated public keys
   keysHeld : Bool               -- State13.KeyShareKeys holds the private keys of those shares
   hsDone : Bool                 -- Handshake reached clientHandshake's write of the hello
+  binderFresh : Bool            -- the binder in Hello.Raw was computed over exactly the bytes of Hello.Raw
   deriving DecidableEq, Repr
 
 def St.init (hasCache : Bool) : St :=
@@ -190,7 +194,7 @@ def St.init (hasCache : Bool) : St :=
     status := .notBuilt, tRef := none, pRef := none, specT := ⟨false, none, none⟩, userT := ⟨false, none, none⟩,
     specP := ⟨none, none⟩, userP := ⟨none, none⟩, lT := none, lP := none, hsSession := none, hsEarly := none,
     helloTicket := none, helloPsk := none, raw := none, helloTS := false, helloShares := false,
-    sharesFilled := false, keysHeld := false, hsDone := false }
+    sharesFilled := false, keysHeld := false, hsDone := false, binderFresh := false }
 
 def St.tObj (s : St) : Ref → TExt
   | .spec => s.specT
@@ -389,12 +393,15 @@ def slotsOf (lT lP : Option Ref) (specT userT : TExt) (specP userP : PExt) : Slo
 
 def slots (s : St) : Slot × Slot := slotsOf s.lT s.lP s.specT s.userT s.specP s.userP
 
-/-- `MarshalClientHello`. -/
-def marshal (s : St) : St := { s with raw := some (slots s) }
+/-- `MarshalClientHello`: the session extensions write what they hold; a pre_shared_key extension
+writes the binders it stored (placeholders, or those of an earlier hello): nothing says they belong
+to the bytes just marshalled until `PatchBuiltHello` runs. -/
+def marshal (s : St) : St := { s with raw := some (slots s), binderFresh := false }
 
-/-- `uApplyPatch`: `shouldUpdateBinders` → `updateBinders`; `setPskToUConn`. -/
+/-- `uApplyPatch`: `shouldUpdateBinders` → `updateBinders` (`PatchBuiltHello` recomputes the binder
+over the marshalled `Hello.Raw` and patches it in place, same length); `setPskToUConn`. -/
 def uApplyPatch (s : St) : R :=
-  if s.pRef.isSome && (s.state == .pskInit || s.state == .pskAllSet) then setPskToUConn s else okR s
+  if s.pRef.isSome && (s.state == .pskInit || s.state == .pskAllSet) then setPskToUConn { s with binderFresh := true } else okR s
 
 def finalCheck (s : St) : R :=
   (uAssert (s.state == .pskAllSet || s.state == .ticketAllSet || s.state == .noSession) .finalcheck s).andThen fun s =>
@@ -444,7 +451,8 @@ def handshake (cfg : Cfg) (lr : LoadRes) (s : St) : R :=
     let ts := s.helloTS || usable      -- loadSession sets hello.ticketSupported when resumption is enabled
     let t : Slot := if !ts then .absent else if res == .s12 then .tok .cache else .empty
     let p : Slot := if res == .s13 then .tok .cache else .absent
-    okR { s with raw := some (t, p), helloTS := ts, hsDone := true }
+    -- crypto/tls marshals its hello and computes the binders itself (`computeAndUpdatePSK`)
+    okR { s with raw := some (t, p), helloTS := ts, hsDone := true, binderFresh := true }
 
 /-- the connection as the API calls find it: a fresh `UClient`, or for HelloCustom a `UClient` on
 which the user's spec was applied (`ApplyPreset` is then never repeated by a build). -/
@@ -461,6 +469,7 @@ def stepR (cfg : Cfg) (s : St) (op : Op) : R :=
   | .handshake lr => handshake cfg lr s
   | .setTicket a => setTicketOp cfg a s
   | .setPsk a => setPskOp cfg a s
+  | .edit => okR s
 
 def outcomeOf (r : R) : Outcome := r.2.getD .ok
 
@@ -505,7 +514,8 @@ def PArg.isInit : PArg → Bool
 
 /-- `legalStep cfg d op = some d'`: the doc comments allow `op` at this point.
 * nothing after `Handshake`;
-* `SetSessionCache`, `BuildHandshakeStateWithoutSession`, `BuildHandshakeState`, `Handshake`: any time;
+* `SetSessionCache`, `BuildHandshakeStateWithoutSession`, `BuildHandshakeState`, `Handshake`, and edits
+  of the other ClientHello fields ("all other fields can be modified"): any time;
 * a setter needs a usable cache ("session is disabled" otherwise); a `nil` argument is a no-op;
 * a non-nil extension only before `BuildHandshakeState` ("cannot be changed after calling
   BuildHandshakeState") and only while no initialised extension was supplied ("should not be
@@ -533,6 +543,7 @@ def legalStep (cfg : Cfg) (d : Doc) : Op → Option Doc
     else if a.isInit then
       if cfg.specP && !cfg.golang then some { d with injP := some a, fresh := false } else none
     else some d
+  | .edit => if d.done then none else some d
 
 def legalRun (cfg : Cfg) : Doc → List Op → Option Doc
   | d, [] => some d
